@@ -18,7 +18,11 @@ func init() {
 			"(3) sealed=false has a single writer (Unseal) and is reached only after the keyring record was decrypted with an AEAD built from the caller's key and recovered; at Core level every key handed to SecurityBarrier.Unseal (directly or through the forwarding helpers unsealInternal / UnsealWithRootKey, call sites tabled) originates from a tabled producer — unsealKeyToRootKey, the seal's stored keys, the key a barrier was just initialised with, the parent barrier's decryption of a namespace root key — behind that producer's success edge and never after its failure edge; " +
 			"(4) durable before visible: the live keyring pointer is replaced only by a keyring that was just persisted (success edge of persistKeyring), by one decrypted from storage, or by nil on seal; persistKeyringInternal encrypts with AEADs built from the keyring it is persisting (not from the barrier's per-term cache), writes the keyring record before the root-key record, and new writes use the active term; " +
 			"(5) the standby upgrade path writes and reads upgrade/<term> under matching constants and terms: CreateUpgrade, DestroyUpgrade and every read of CheckUpgrade (also the re-read after the lock upgrade) build the key through one format over the same prefix operand carrying KeyringUpgradePrefix; the term operand is the bare ActiveTerm() of the live keyring in the reader and the parameter term minus one in writer and destroyer; the writer encrypts under, and takes the AEAD of, the term it files the key under and stores the entry under the key it encrypted for; " +
-			"(6) rekey / root rotation in Core perform a frozen sequence of independent durable writes with no atomic envelope (known finding F6).",
+			"(6) rekey / root rotation in Core perform a frozen sequence of independent durable writes with no atomic envelope (known finding F6); the namespace-aware siblings (SealManager.performRootRotation, RotateBarrierRootKey) perform the same steps, each behind the success edge of the previous one, and hand the seal and the barrier the same freshly generated root key; " +
+			"(7) the Keyring is a copy-on-write value that carries every key: no method writes through its receiver, Clone builds a fresh map filled from the receiver's, Serialize appends a key on every iteration over k.keys and encodes k.rootKey, the active term is only stored behind activeTerm < key.Term (AddKey and DeserializeKeyring), AddKey installs a key only for a term not yet installed; " +
+			"(2b) Zeroize with keysToo is called only by Seal (clones share key values); SealManager.sealAll walks every barrier, its callback never stops the walk and seals each non-nil entry; " +
+			"(4b) aeadForTerm probes and fills the cache under, and builds the AEAD from the key of, its term parameter; Initialize persists the first keyring only behind Initialized() == false; " +
+			"(5b) Core side of the upgrade path: CreateUpgrade/DestroyUpgrade receive the term Rotate returned, behind Rotate's success; checkKeyringUpgrade calls CheckUpgrade again after every installed term; performKeyUpgrades runs checkKeyringUpgrade, ReloadRootKey, ReloadKeyring, reloadShamirKey in this order, each after the previous succeeded.",
 		NotDecided: "readability of old entries after arbitrary rotate/rekey histories (values/keys); crash at an arbitrary write prefix beyond listing the non-atomic sequences; lock discipline of b.l (conditional locking); namespace barriers' sealing order.",
 		Run:        runC10,
 	})
@@ -440,4 +444,5 @@ func runC10(c *eng.Ctx, thorough bool) {
 
 	// ---------- C10.6 rekey write sequences (R13)
 	c10Rekey(c)
+	runC10Gaps2(c)
 }
